@@ -54,11 +54,13 @@ def run_case(spec):
   mod = bootstrap.mm('tbr_iroas')
   scenario = ['fixed', 'variable', 'fixed', 'variable', 'variable', 'treatment_pre_only', 'control_test_only',
               'variable'][spec['idx'] % 8]
+  if spec['idx'] % 16 == 15:
+    scenario = 'bystander_pre_only'       # pre-period spend only in geos outside the two experiment groups
   # total non-incremental cost anywhere between 1e-7 and 1e7: "zero" must mean zero, not "small"
   cost_scale = 1.0 if scenario != 'variable' else r.choice([1.0, 1.0, 1e-6, 1e-4, 1e3])
   tiny_total = scenario == 'variable' and spec['idx'] % 16 == 1     # non-incremental cost of a few 1e-9 in total
   extras = set()
-  if r.random() < 0.2:
+  if r.random() < 0.2 or scenario == 'bystander_pre_only':
     extras.add('unassigned_geo')
   cooldown_spend = r.choice([0.0, 0.0, 0.5, 1.0]) if scenario in ('fixed', 'variable') else 0.0
   exp = gen.gen_experiment(r, g, extras=extras, cost_mode=scenario, cost_scale=cost_scale, cooldown_spend=cooldown_spend,
@@ -110,7 +112,7 @@ def run_case(spec):
     return {'nontrivial': True, 'fp': util.fp(desc), 'classes': [scenario], 'counters': {}, 'violations': violations, 'sample': None}
   seed = r.randrange(1, 1 << 30)
   s1 = util.call(model.summary, level=level, posterior_threshold=thr_base, tails=tails, nsims=nsims, random_state=seed)
-  mixed = scenario in ('treatment_pre_only', 'control_test_only')
+  mixed = scenario in ('treatment_pre_only', 'control_test_only', 'bystander_pre_only')
   if mixed:
     # one group never spends: the cost regression is degenerate, so only the scenario label is judged
     counters['mixed_cost_cases'] += 1
@@ -120,6 +122,7 @@ def run_case(spec):
       if got != 'variable':
         add('scenario', 'scenario-label', 'scenario reported %r although %s' % (
             got, 'the treatment group has non-zero pre-period cost' if scenario == 'treatment_pre_only'
+            else 'geos outside the two groups have non-zero pre-period cost' if scenario == 'bystander_pre_only'
             else 'the control group has non-zero test-period cost'))
     else:
       counters['mixed_cost_summary_raised'] += 1
